@@ -15,6 +15,7 @@ from concurrent.futures import ThreadPoolExecutor
 SRC = sys.argv[1] if len(sys.argv) > 1 else "/tmp/seed_out"
 DST = "/verif/seeded"
 PY = "/venv/bin/python"
+ROUND = os.environ.get("SEED_ROUND", "")     # e.g. r9 -> ids Cxx-r9m<k>
 
 
 def run(cmd, cwd=None, env=None, timeout=900):
@@ -27,7 +28,7 @@ def run(cmd, cwd=None, env=None, timeout=900):
 
 def one(item):
     prop, mk, d = item
-    sid = "%s-%s" % (prop, mk)
+    sid = "%s-%s%s" % (prop, ROUND, mk)
     out = {"id": sid}
     patch = os.path.join(d, "patch.diff")
     demo = os.path.join(d, "demo.py")
@@ -87,7 +88,7 @@ def main():
         for mk in sorted(os.listdir(pd)):
             d = os.path.join(pd, mk)
             if os.path.isdir(d) and mk.startswith("m"):
-                sid = "%s-%s" % (prop, mk)
+                sid = "%s-%s%s" % (prop, ROUND, mk)
                 if only and sid not in only and prop not in only:
                     continue
                 if os.path.exists(os.path.join(DST, sid, "meta.json")) and not only:
